@@ -7,7 +7,9 @@ Space: per target (x86 16/32/64, ARM l/b, Thumb l/b, AArch64 l/b, MIPS32 l/b, PP
 truncations of BOUNDS: fixed-width ISAs all 2^16 high half-words x a low half-word menu, Thumb all 2^16 first
 half-words x a second half-word menu, x86 prefix menu x {one-byte map, 0F map} x all 256 opcode bytes x ModRM menu x
 tail menu; plus the x86 prefix-stack family "pfx" (stacks of 66h / 67h x REX byte x every opcode with an operand-size- or
-address-size-dependent immediate / relative / moffs operand x ModRM-SIB-disp forms, see PFX_*).
+address-size-dependent immediate / relative / moffs operand x ModRM-SIB-disp forms, see PFX_*) and the ARM / Thumb
+register-field family "regs" (Thumb-2 load/store/preload space F800..F9FF and the ARM unconditional preload/hint rows:
+every Rn x every Rt x a few offset forms, see REGS_*).
 Every element miasm decodes (mn.dis(bytes, mode) returns) is taken once per distinct decoded byte string.
 
 Oracle (the property statement).  For a decoded instruction of length L exactly the L bytes are handed to
@@ -46,7 +48,8 @@ ENGINE = "enum"
 RULE = ("every element of the insngen lattices (curated vectors of test/arch; opcode-map cubes: all 2^16 opcode "
         "half-words x operand half-word menu for ARM/Thumb/AArch64/MIPS32/PPC, prefix menu x one-byte/0F map x all 256 "
         "opcode bytes x ModRM menu x tail menu for x86, and stacks of 66h/67h x REX x every Iz/Iv/Jz/moffs opcode x ModRM "
-        "forms) that miasm decodes, once per distinct decoded byte string "
+        "forms; every Rn x every Rt of the Thumb-2 load/store/preload space and of the ARM preload/hint rows x offset menu) "
+        "that miasm decodes, once per distinct decoded byte string "
         "(instr.b) per target and shard; its L bytes go to llvm-mc as one atomic block; non-trivial = miasm decoded the "
         "element, so that one comparison with the reference decoder took place")
 LEVEL_TEXT = ("Bounded-exhaustive over explicitly described encoding lattices: the complete major-opcode axis of every "
@@ -112,6 +115,8 @@ BOUNDS = {
                              "x86": {"prefix": 7, "maps": 2, "second": 2, "tail": 1}}, _NAT),
         # prefix stacks {none, 66, 67, 66 67, 67 66} x REX {none, 40, 48, 4C, 4F} (64-bit mode) x Iz/Iv/Jz/moffs opcodes
         "pfx": dict((t, {"rex": 5, "modrm": 6, "tail": 1}) for t in ("x86_16", "x86_32", "x86_64")),
+        # every Rn x every Rt of the Thumb-2 load/store/preload space (F800..F9FF) and of the ARM preload/hint rows
+        "regs": {"armtl": {"low": 3}, "armtb": {"low": 2}, "arml": {"ops": 18, "low": 2}, "armb": {"ops": 18, "low": 1}},
         "shard": 2048, "bundles": 8,
     },
     # thorough: complete 16-bit opcode axis x 4 operand half-words (the other byte order: x 1), x86 with the complete
@@ -124,6 +129,7 @@ BOUNDS = {
             **g.cube_dims({"fixed32": {"lo": 1, "hi": 0}, "thumb": {"ext": 1}}, _SWP)),
         # the same with every REX byte (none, 40..4F), the complete ModRM menu and 2 tails
         "pfx": dict((t, {"rex": 17, "modrm": 10, "tail": 2}) for t in ("x86_16", "x86_32", "x86_64")),
+        "regs": {"armtl": {"low": 6}, "armtb": {"low": 3}, "arml": {"ops": 65, "low": 4}, "armb": {"ops": 65, "low": 2}},
         "shard": 8192, "bundles": 48,
     },
 }
@@ -167,21 +173,65 @@ class PfxSource(object):
         self.item = self.items.__getitem__
 
 
-def pfx_source(name, dims):
-    """Registers the family under insngen's source cache (kind "pfx"), so that g.shards / g.iter_shard_indexed serve it."""
-    key = ("src", name, "pfx", tuple(sorted(dims.items())))
+# ---------------------------------------------------------------------------------------------------------------
+# ARM / Thumb register-field family ("regs"): the cubes cross the opcode half-word with a handful of operand half-words,
+# so only a few (Rn, Rt) pairs occur.  "Unallocated" encodings live exactly where PC / SP sit in a register field, so
+# for the load / store / preload spaces every Rn x every Rt is enumerated with a few offset forms:
+#   Thumb-2: hw0 = F800..F9FF (STR* / LDR* / LDRS* / PLD / PLDW / PLI: 32 opcodes x 16 Rn), hw1 = Rt(16) : low12 menu
+#            (imm12 forms, and the imm8 forms 1PUW:imm8, the register form 000000:imm2:Rm, the T variant 1110:imm8);
+#   ARM:     unconditional space cond=1111, bits 27:20 from REGS_ARM_OPS (PLD / PLDW / PLI immediate and register forms
+#            first, then CLREX/DSB/DMB/ISB and CPS/SETEND rows, thorough: all of 0x40..0x7F) x 16 Rn x 16 Rd x low12 menu.
+REGS_THUMB_LOW = [0xFFF, 0x000, 0xC04, 0x900, 0xE01, 0x02F]
+REGS_ARM_OPS = ([0x41 + 4 * i for i in range(16)] + [0x57, 0x10]
+                + [o for o in range(0x40, 0x80) if o & 3 != 1 and o != 0x57])
+REGS_ARM_LOW = [0xFFF, 0x000, 0x06F, 0x05F]
+
+
+class RegSource(object):
+    """insngen-compatible source (n, group, item), leading bytes major."""
+
+    def __init__(self, name, dims):
+        t = g.Target(name)
+        self.name, self.kind = name, "regs"
+        self.t = t
+        if t.kind == "thumb":
+            self.low = REGS_THUMB_LOW[:dims["low"]]
+            self.heads = list(range(0xF800, 0xFA00))
+        else:
+            self.low = REGS_ARM_LOW[:dims["low"]]
+            self.heads = [0xF000 | (op << 4) | rn for op in REGS_ARM_OPS[:dims["ops"]] for rn in range(16)]
+        self.group = 16 * len(self.low)
+        self.n = len(self.heads) * self.group
+
+    def item(self, i):
+        h, r = divmod(i, self.group)
+        rt, l = divmod(r, len(self.low))
+        lo = (rt << 12) | self.low[l]
+        if self.t.kind == "thumb":
+            return self.t.pack([self.heads[h], lo])
+        return self.t.pack([(self.heads[h] << 16) | lo])
+
+
+LOCAL_SOURCES = {"pfx": PfxSource, "regs": RegSource}
+
+
+def local_source(kind, name, dims):
+    """Registers a family of this module under insngen's source cache, so that g.shards / g.iter_shard_indexed serve it."""
+    key = ("src", name, kind, tuple(sorted(dims.items())))
     if key not in g._cache:
-        g._cache[key] = PfxSource(name, dims)
+        g._cache[key] = LOCAL_SOURCES[kind](name, dims)
     return g._cache[key]
 
 
-def pfx_shards(tier, only=None):
+def local_shards(tier, only=None):
     out = []
-    for name, dims in sorted(BOUNDS[tier]["pfx"].items()):
-        if only and name not in only:
-            continue
-        pfx_source(name, dims)
-        out += g.shards(name, "pfx", dims, BOUNDS[tier]["shard"])
+    for kind in sorted(LOCAL_SOURCES):
+        for name in TARGETS:
+            dims = BOUNDS[tier][kind].get(name)
+            if dims is None or (only and name not in only):
+                continue
+            local_source(kind, name, dims)
+            out += g.shards(name, kind, dims, BOUNDS[tier]["shard"])
     return out
 
 
@@ -481,8 +531,8 @@ def _bundle(bundle):
     for shard in bundle:
         name = shard[0]
         deterministic(name)
-        if shard[1] == "pfx":
-            pfx_source(name, shard[2])
+        if shard[1] in LOCAL_SOURCES:
+            local_source(shard[1], name, shard[2])
         stats = {}
         counters = collections.Counter()
         idx = len(out)
@@ -522,7 +572,7 @@ def _work(bundle):
 
 
 def plan(tier, only=None):
-    return g.make_plan(BOUNDS[tier], TARGETS, only) + pfx_shards(tier, only)
+    return g.make_plan(BOUNDS[tier], TARGETS, only) + local_shards(tier, only)
 
 
 def run(ctx):
@@ -532,8 +582,9 @@ def run(ctx):
     # no warm-up in the parent: every worker imports the architectures of its own bundles (a bundle holds one family)
     res = [r for rs in ctx.pmap(_work, g.bundles(shards, BOUNDS[tier]["bundles"])) for r in rs]
     sizes = g.plan_sizes(BOUNDS[tier], TARGETS)
-    for name, dims in BOUNDS[tier]["pfx"].items():
-        sizes[name]["pfx"] = pfx_source(name, dims).n
+    for kind in LOCAL_SOURCES:
+        for name, dims in BOUNDS[tier][kind].items():
+            sizes[name][kind] = local_source(kind, name, dims).n
     bounds = dict(BOUNDS[tier], sizes=sizes,
                   llvm=dict((t, " ".join(LLVM_TARGETS[t][0])) for t in TARGETS))
     cov = g.fold(ctx, res, bounds, nontrivial=lambda c: c.get("compared", 0))
